@@ -194,7 +194,7 @@ theorem wf_flowRecsTree (m : FlowRecs) : WF (flowRecsTree m) := by
 theorem wf_flowSampleTree (s : FlowSample) : WF (flowSampleTree s) := by
   simp only [flowSampleTree, obj, WF, membersOf, WFM, wf_num, and_true, true_and]
   exact ⟨by decide +kernel, by decide +kernel, by decide +kernel, by decide +kernel, by decide +kernel,
-    by decide +kernel, by decide +kernel, by decide +kernel, by decide +kernel, wf_flowRecsTree _⟩
+    by decide +kernel, by decide +kernel, by decide +kernel, by decide +kernel, by decide +kernel, wf_flowRecsTree _⟩
 
 theorem wf_counterRecsTree (m : CounterRecs) : WF (counterRecsTree m) := by
   apply wf_obj
